@@ -3,7 +3,7 @@ from speaker_common import run_speaker
 
 
 def main(run):
-    run_speaker(run, ["C15_ExportAsIfFresh", "C15_LocRibAsIfFresh", "C02_AdjInExact"], policy=True, design=None)
+    run_speaker(run, ["C15_ExportAsIfFresh", "C15_AddPathAsIfFresh", "C15_LocRibAsIfFresh", "C02_AdjInExact"], policy=True, design=None)
 
 
 RULE = ("schedules = SpeakerGen.tla with WithPolicy: route events interleaved with SetImp/SetExp over the closed "
